@@ -9,8 +9,11 @@ All theorems are about the model of `test()` (Model/TestCache.lean) instantiated
 run from `RuntimeHash`, `ruleHash`, `IterRuntimeFiles`, `needToRun`, `cachedTestResults`, `cacheOutputFiles`
 (`TestCache.generatedFacts`) on top of the build model instantiated with `Build.generatedFacts`.
 
+The model covers both configurations: without an artifact cache, and with `[cache] dir` (build outputs AND results
+files stored into / retrieved from the cache under (label, hash)); `TRepo.cacheOn` is part of the tree.
+
 * FULL, for every history and every deterministic test semantics `outcome`:
-  `C11_no_fail_reuse` (every results file is a pass), `C11_cached_is_pass`, `C11_cached_only_if`,
+  `C11_no_fail_reuse` (every results file — in plz-out and in the artifact cache — is a pass), `C11_cached_is_pass`, `C11_cached_only_if`,
   `C11_fail_not_stored`, `C11_no_result_runs` (a failing run is executed again).
 * `C11_outcome_eq_fresh`: incremental = fresh, CONDITIONAL on the runtime pre-image determining the runtime inputs
   (plus C01's hypotheses for the build phase).
@@ -55,48 +58,56 @@ abbrev fresh := @freshRun K A F N C S H A' S' G _ _ _ _ _ _ TestCache.generatedF
 
 /-- Invariant over ALL histories (any `plz test` / `plz build` of any intermediate tree with any flags, any
     removal of outputs or results files): every results file is all-succeeded. -/
-theorem C11_no_fail_reuse (history : List (TOp K A F N C A' G)) :
-    ∀ k s, (hist exec ruleSer pathSer ruleSerRT outcome history TState.empty).res k = some s → s.res = .pass := by
-  intro k s h
-  have := runHistT_rinv TestCache.generatedFacts ruleSerRT pathSer outcome Build.generatedFacts (mvCoded Build.generatedFacts pathSer) exec ruleSer
-    (fun (_ : A') (_ : List (N × C)) => True) facts_store history TState.empty (rinv_empty _ _ _ _ _)
+theorem C11_no_fail_reuse (history : List (TOp K A F N C S H A' G (RStamp S' G N H))) :
+    (∀ k s, (hist exec ruleSer pathSer ruleSerRT outcome history TState.empty).res k = some s → s.res = .pass) ∧
+    (∀ q s, (hist exec ruleSer pathSer ruleSerRT outcome history TState.empty).rcache q = some s → s.res = .pass) := by
+  have := runHistT_rinv TestCache.generatedFacts ruleSerRT pathSer outcome Build.generatedFacts
+    (mvCoded Build.generatedFacts pathSer) exec ruleSer
+    (fun (_ : A') (_ : List (N × C)) => True) facts_store history TState.empty (rinv_empty _ _ _ _ _) (rcinv_empty _ _ _ _ _)
     (admHist_true _ _ _ _ _ _ _ _ history _)
-  exact (this k s h).1
+  exact ⟨fun k s h => (this.1 k s h).1, fun q s h => (this.2 q.1 q.2 s h).2.1⟩
 
 /-- After any history, whatever a `plz test` reports as cached is a pass, and the command was not executed. -/
-theorem C11_cached_is_pass (history : List (TOp K A F N C A' G)) (r : TRepo K A F N C A' G)
+theorem C11_cached_is_pass (history : List (TOp K A F N C S H A' G (RStamp S' G N H))) (r : TRepo K A F N C A' G)
     (sel tsel : K → Bool) (fl : Flags) :
     ∀ k rep, (k, some rep) ∈ (plzTest exec ruleSer pathSer ruleSerRT outcome r sel tsel fl
         (hist exec ruleSer pathSer ruleSerRT outcome history TState.empty)).2.2 →
       rep.cached = true → rep.res = .pass ∧ rep.runs = 0 := by
   have hinv := runHistT_rinv TestCache.generatedFacts ruleSerRT pathSer outcome Build.generatedFacts (mvCoded Build.generatedFacts pathSer) exec ruleSer
-    (fun (_ : A') (_ : List (N × C)) => True) facts_store history TState.empty (rinv_empty _ _ _ _ _)
+    (fun (_ : A') (_ : List (N × C)) => True) facts_store history TState.empty (rinv_empty _ _ _ _ _) (rcinv_empty _ _ _ _ _)
     (admHist_true _ _ _ _ _ _ _ _ history _)
   intro k rep hm hc
   exact testList_cached_pass TestCache.generatedFacts ruleSerRT pathSer outcome (fun (_ : A') (_ : List (N × C)) => True) facts_store r tsel fl
-    _ _ _ r.repo.targets _ hinv (fun _ _ _ _ _ _ _ => trivial) k rep hm hc
+    _ _ _ r.repo.targets _ _ hinv.1 hinv.2 (fun _ _ _ _ _ _ _ => trivial) k rep hm hc
 
-/-- "Cached only if a passing run exists for the current pre-image": a cached report means a results file was
-    there, it is a pass, and the hash recorded on it equals the current runtime hash. -/
+/-- "Cached only if a passing run exists for the current pre-image": a cached report means there was a passing
+    results file whose recorded hash equals the current runtime hash, or a passing entry in the artifact cache filed
+    under the current runtime hash. -/
 theorem C11_cached_only_if {R : Type} [DecidableEq R] (fl : Flags) (bs : BState) (noOut : Bool) (a : A')
-    (files : List (N × C)) (h : R) (stored : Option (Stored R)) (hg : ∀ s, stored = some s → s.res = .pass)
-    (hc : (testOne TestCache.generatedFacts outcome fl bs noOut a files h stored).2.cached = true) :
-    ∃ s, stored = some s ∧ s.res = .pass ∧ s.stamp = h := by
-  obtain ⟨_, _, s, h1, h2, h3⟩ := testOne_cached_pass TestCache.generatedFacts outcome fl bs noOut a files h stored hg hc
-  exact ⟨s, h1, h2, h3 facts_verify⟩
+    (files : List (N × C)) (h : R) (stored hit : Option (Stored R))
+    (hg : ∀ s, stored = some s → s.res = .pass) (hh : ∀ s, hit = some s → s.res = .pass)
+    (hc : (testOne TestCache.generatedFacts outcome fl bs noOut a files h stored hit).2.2.cached = true) :
+    ∃ s, s.res = .pass ∧ ((stored = some s ∧ s.stamp = h) ∨ hit = some s) := by
+  obtain ⟨_, _, s, h1, h2⟩ := testOne_cached_pass TestCache.generatedFacts outcome fl bs noOut a files h stored hit hg hh hc
+  rcases h2 with ⟨h3, h4⟩ | h3
+  · exact ⟨s, h1, Or.inl ⟨h3, h4 facts_verify⟩⟩
+  · exact ⟨s, h1, Or.inr h3⟩
 
-/-- A run that does not pass leaves no results file … -/
+/-- A run that does not pass leaves no results file and puts nothing into the cache … -/
 theorem C11_fail_not_stored {R : Type} [DecidableEq R] (fl : Flags) (bs : BState) (noOut : Bool) (a : A')
-    (files : List (N × C)) (h : R) (stored : Option (Stored R)) (hg : ∀ s, stored = some s → s.res = .pass)
-    (hne : (testOne TestCache.generatedFacts outcome fl bs noOut a files h stored).2.res ≠ .pass) :
-    (testOne TestCache.generatedFacts outcome fl bs noOut a files h stored).1 = none :=
-  testOne_not_pass_clears TestCache.generatedFacts outcome facts_store facts_removes fl bs noOut a files h stored hg hne
+    (files : List (N × C)) (h : R) (stored hit : Option (Stored R))
+    (hg : ∀ s, stored = some s → s.res = .pass) (hh : ∀ s, hit = some s → s.res = .pass)
+    (hne : (testOne TestCache.generatedFacts outcome fl bs noOut a files h stored hit).2.2.res ≠ .pass) :
+    (testOne TestCache.generatedFacts outcome fl bs noOut a files h stored hit).1 = none ∧
+    (testOne TestCache.generatedFacts outcome fl bs noOut a files h stored hit).2.1 = none :=
+  testOne_not_pass_clears TestCache.generatedFacts outcome facts_store facts_removes fl bs noOut a files h stored hit hg hh hne
 
-/-- … and with no results file the command is executed again, whatever the flags and the target state. -/
+/-- … and with no results file (and no cache entry for the current hash) the command is executed again, whatever
+    the flags and the target state. -/
 theorem C11_no_result_runs {R : Type} [DecidableEq R] (fl : Flags) (bs : BState) (noOut : Bool) (a : A')
     (files : List (N × C)) (h : R) (hn : fl.numRuns ≥ 1) :
-    (testOne TestCache.generatedFacts outcome fl bs noOut a files h none).2.runs ≥ 1 ∧
-    (testOne TestCache.generatedFacts outcome fl bs noOut a files h none).2.cached = false :=
+    (testOne TestCache.generatedFacts outcome fl bs noOut a files h none none).2.2.runs ≥ 1 ∧
+    (testOne TestCache.generatedFacts outcome fl bs noOut a files h none none).2.2.cached = false :=
   testOne_none_runs TestCache.generatedFacts outcome fl bs noOut a files h hn
 
 /-! ### Incremental = fresh -/
@@ -107,20 +118,21 @@ theorem C11_no_result_runs {R : Type} [DecidableEq R] (fl : Flags) (bs : BState)
 theorem outcome_eq_fresh_on (P : A' → List (N × C) → Prop)
     (hR : Function.Injective ruleSer) (hP : Function.Injective pathSer)
     (hRT : InjOn (G := G) TestCache.generatedFacts ruleSerRT pathSer P)
-    (history : List (TOp K A F N C A' G)) (r : TRepo K A F N C A' G) (sel tsel : K → Bool) (fl : Flags)
+    (history : List (TOp K A F N C S H A' G (RStamp S' G N H))) (r : TRepo K A F N C A' G) (sel tsel : K → Bool) (fl : Flags)
     (hadm : AdmHist TestCache.generatedFacts ruleSerRT pathSer outcome Build.generatedFacts (mvCoded Build.generatedFacts pathSer) exec ruleSer P
       (history ++ [.test r sel tsel fl]) TState.empty)
-    (hadmF : Adm P r tsel (build Build.generatedFacts (mvCoded Build.generatedFacts pathSer) exec ruleSer pathSer r.repo sel (fun _ => none)).1 r.repo.targets)
+    (hadmF : Adm P r tsel (buildPhase pathSer Build.generatedFacts (mvCoded Build.generatedFacts pathSer) exec ruleSer r sel
+      (fun _ => none) (fun _ => none)).1 r.repo.targets)
     (hwf : WFList sel [] r.repo.targets) (hdc : DataClosed r tsel (selKeys sel r.repo.targets)) :
     outcomes (plzTest exec ruleSer pathSer ruleSerRT outcome r sel tsel fl
         (hist exec ruleSer pathSer ruleSerRT outcome history TState.empty)).2.2 =
     outcomes (fresh exec ruleSer pathSer ruleSerRT outcome r sel tsel) := by
   -- split the admissibility of history ++ [test]
-  have hsplit : ∀ (ops : List (TOp K A F N C A' G)) (st : TState K C S N H (RStamp S' G N H)),
+  have hsplit : ∀ (ops : List (TOp K A F N C S H A' G (RStamp S' G N H))) (st : TState K C S N H (RStamp S' G N H)),
       AdmHist TestCache.generatedFacts ruleSerRT pathSer outcome Build.generatedFacts (mvCoded Build.generatedFacts pathSer) exec ruleSer P (ops ++ [.test r sel tsel fl]) st →
       AdmHist TestCache.generatedFacts ruleSerRT pathSer outcome Build.generatedFacts (mvCoded Build.generatedFacts pathSer) exec ruleSer P ops st ∧
-      Adm P r tsel (build Build.generatedFacts (mvCoded Build.generatedFacts pathSer) exec ruleSer pathSer r.repo sel
-        (hist exec ruleSer pathSer ruleSerRT outcome ops st).out).1 r.repo.targets := by
+      Adm P r tsel (buildPhase pathSer Build.generatedFacts (mvCoded Build.generatedFacts pathSer) exec ruleSer r sel
+        (hist exec ruleSer pathSer ruleSerRT outcome ops st).out (hist exec ruleSer pathSer ruleSerRT outcome ops st).bcache).1 r.repo.targets := by
     intro ops
     induction ops with
     | nil => intro st h; exact ⟨trivial, h.1⟩
@@ -131,36 +143,44 @@ theorem outcome_eq_fresh_on (P : A' → List (N × C) → Prop)
       | build r' sel' => exact ih _ h
       | rmOut keep => exact ih _ h
       | rmRes keep => exact ih _ h
+      | evictB keep => exact ih _ h
+      | evictR keep => exact ih _ h
   obtain ⟨hadmH, hadmL⟩ := hsplit history TState.empty hadm
-  have hinv : Inv exec ruleSer pathSer (hist exec ruleSer pathSer ruleSerRT outcome history TState.empty).out :=
-    runHistT_inv TestCache.generatedFacts ruleSerRT pathSer outcome Build.generatedFacts (mvCoded Build.generatedFacts pathSer) exec ruleSer (mvCoded_ok _ _) hP history
-      TState.empty (inv_empty exec ruleSer pathSer)
+  have hinv := runHistT_inv TestCache.generatedFacts ruleSerRT pathSer outcome Build.generatedFacts (mvCoded Build.generatedFacts pathSer)
+    exec ruleSer (mvCoded_ok _ _) hP history TState.empty (inv_empty exec ruleSer pathSer) (invC_empty exec ruleSer pathSer)
   have hrinv := runHistT_rinv TestCache.generatedFacts ruleSerRT pathSer outcome Build.generatedFacts (mvCoded Build.generatedFacts pathSer) exec ruleSer
-    P facts_store history TState.empty (rinv_empty _ _ _ _ _) hadmH
+    P facts_store history TState.empty (rinv_empty _ _ _ _ _) (rcinv_empty _ _ _ _ _) hadmH
   -- both reports are the expected outcomes over the respective plz-out
   have hL := (testList_spec TestCache.generatedFacts ruleSerRT pathSer outcome P facts_store r tsel fl
-    (hist exec ruleSer pathSer ruleSerRT outcome history TState.empty).out _
-    (build Build.generatedFacts (mvCoded Build.generatedFacts pathSer) exec ruleSer pathSer r.repo sel
-      (hist exec ruleSer pathSer ruleSerRT outcome history TState.empty).out).2 r.repo.targets _ hrinv hadmL).2 facts_verify hRT
+    (hist exec ruleSer pathSer ruleSerRT outcome history TState.empty).out
+    (buildPhase pathSer Build.generatedFacts (mvCoded Build.generatedFacts pathSer) exec ruleSer r sel
+      (hist exec ruleSer pathSer ruleSerRT outcome history TState.empty).out
+      (hist exec ruleSer pathSer ruleSerRT outcome history TState.empty).bcache).1
+    (buildPhase pathSer Build.generatedFacts (mvCoded Build.generatedFacts pathSer) exec ruleSer r sel
+      (hist exec ruleSer pathSer ruleSerRT outcome history TState.empty).out
+      (hist exec ruleSer pathSer ruleSerRT outcome history TState.empty).bcache).2.2 r.repo.targets _ _ hrinv.1 hrinv.2 hadmL).2.2 facts_verify hRT
   have hF := (testList_spec TestCache.generatedFacts ruleSerRT pathSer outcome P facts_store r tsel ({} : Flags)
-    (fun _ => none) _ (build Build.generatedFacts (mvCoded Build.generatedFacts pathSer) exec ruleSer pathSer r.repo sel (fun _ => none)).2 r.repo.targets
-    (fun _ => none) (rinv_empty _ _ _ _ _) hadmF).2 facts_verify hRT
-  -- the two plz-outs agree on the closure (C01: both equal the clean build)
-  have hA := buildList_spec Build.generatedFacts (mvCoded Build.generatedFacts pathSer) exec ruleSer pathSer (mvCoded_ok _ _) facts_cmp hR hP r.repo sel r.repo.targets []
-    (hist exec ruleSer pathSer ruleSerRT outcome history TState.empty).out [] rfl hinv (by intro k hk; simp at hk) hwf
-  have hB := buildList_spec Build.generatedFacts (mvCoded Build.generatedFacts pathSer) exec ruleSer pathSer (mvCoded_ok _ _) facts_cmp hR hP r.repo sel r.repo.targets []
-    (fun _ => none) [] rfl (inv_empty exec ruleSer pathSer) (by intro k hk; simp at hk) hwf
+    (fun _ => none)
+    (buildPhase pathSer Build.generatedFacts (mvCoded Build.generatedFacts pathSer) exec ruleSer r sel (fun _ => none) (fun _ => none)).1
+    (buildPhase pathSer Build.generatedFacts (mvCoded Build.generatedFacts pathSer) exec ruleSer r sel (fun _ => none) (fun _ => none)).2.2
+    r.repo.targets (fun _ => none) (fun _ => none) (rinv_empty _ _ _ _ _) (rcinv_empty _ _ _ _ _) hadmF).2.2 facts_verify hRT
+  -- the two plz-outs agree on the closure (C01 / C02: both equal the clean build)
+  have hA := buildPhase_clean pathSer Build.generatedFacts (mvCoded Build.generatedFacts pathSer) exec ruleSer (mvCoded_ok _ _) facts_cmp hR hP r sel
+    _ _ hinv.1 hinv.2 hwf
+  have hB := buildPhase_clean pathSer Build.generatedFacts (mvCoded Build.generatedFacts pathSer) exec ruleSer (mvCoded_ok _ _) facts_cmp hR hP r sel
+    (fun _ => none) (fun _ => none) (inv_empty exec ruleSer pathSer) (invC_empty exec ruleSer pathSer) hwf
   have hag : AgreeOn (selKeys sel r.repo.targets)
-      (build Build.generatedFacts (mvCoded Build.generatedFacts pathSer) exec ruleSer pathSer r.repo sel
-        (hist exec ruleSer pathSer ruleSerRT outcome history TState.empty).out).1
-      (build Build.generatedFacts (mvCoded Build.generatedFacts pathSer) exec ruleSer pathSer r.repo sel (fun _ => none)).1 := by
+      (buildPhase pathSer Build.generatedFacts (mvCoded Build.generatedFacts pathSer) exec ruleSer r sel
+        (hist exec ruleSer pathSer ruleSerRT outcome history TState.empty).out
+        (hist exec ruleSer pathSer ruleSerRT outcome history TState.empty).bcache).1
+      (buildPhase pathSer Build.generatedFacts (mvCoded Build.generatedFacts pathSer) exec ruleSer r sel (fun _ => none) (fun _ => none)).1 := by
     intro k hk
-    obtain ⟨c1, s1, h1, l1⟩ := hA.2.2 k (by simpa using hk)
-    obtain ⟨c2, s2, h2, l2⟩ := hB.2.2 k (by simpa using hk)
+    obtain ⟨c1, s1, h1, l1⟩ := hA k hk
+    obtain ⟨c2, s2, h2, l2⟩ := hB k hk
     have : c1 = c2 := by rw [l1] at l2; exact Option.some.inj l2
-    simp only [build, h1, h2, Option.map_some, this]
+    rw [h1, h2, this]; rfl
   have hE := expected_congr outcome r tsel _ _ (selKeys sel r.repo.targets) hag r.repo.targets hdc
-  show outcomes (testList _ _ _ _ _ _ _ _ _ _ _ _).2 = outcomes (testList _ _ _ _ _ _ _ _ _ _ _ _).2
+  show outcomes (testList _ _ _ _ _ _ _ _ _ _ _ _ _).2.2 = outcomes (testList _ _ _ _ _ _ _ _ _ _ _ _ _).2.2
   exact hL.trans (hE.trans hF.symm)
 
 /-- THE PROPERTY, conditional: if the runtime pre-image (as `RuntimeHash` writes it) determines the runtime
@@ -169,7 +189,7 @@ theorem outcome_eq_fresh_on (P : A' → List (N × C) → Prop)
     fresh run of the same tree in an empty directory. -/
 theorem C11_outcome_eq_fresh (hR : Function.Injective ruleSer) (hP : Function.Injective pathSer)
     (hRT : InjOn (G := G) TestCache.generatedFacts ruleSerRT pathSer (fun (_ : A') (_ : List (N × C)) => True))
-    (history : List (TOp K A F N C A' G)) (r : TRepo K A F N C A' G) (sel tsel : K → Bool) (fl : Flags)
+    (history : List (TOp K A F N C S H A' G (RStamp S' G N H))) (r : TRepo K A F N C A' G) (sel tsel : K → Bool) (fl : Flags)
     (hwf : WFList sel [] r.repo.targets) (hdc : DataClosed r tsel (selKeys sel r.repo.targets)) :
     outcomes (plzTest exec ruleSer pathSer ruleSerRT outcome r sel tsel fl
         (hist exec ruleSer pathSer ruleSerRT outcome history TState.empty)).2.2 =
@@ -183,11 +203,11 @@ theorem C11_outcome_eq_fresh (hR : Function.Injective ruleSer) (hP : Function.In
     pre-image and C09's for the path pre-image. -/
 theorem C11_outcome_eq_fresh_partial (names : A' → List N)
     (hR : Function.Injective ruleSer) (hP : Function.Injective pathSer) (hRTr : Function.Injective ruleSerRT)
-    (history : List (TOp K A F N C A' G)) (r : TRepo K A F N C A' G) (sel tsel : K → Bool) (fl : Flags)
+    (history : List (TOp K A F N C S H A' G (RStamp S' G N H))) (r : TRepo K A F N C A' G) (sel tsel : K → Bool) (fl : Flags)
     (hadm : AdmHist TestCache.generatedFacts ruleSerRT pathSer outcome Build.generatedFacts (mvCoded Build.generatedFacts pathSer) exec ruleSer
       (fun a f => f.map Prod.fst = names a) (history ++ [.test r sel tsel fl]) TState.empty)
     (hadmF : Adm (fun a f => f.map Prod.fst = names a) r tsel
-      (build Build.generatedFacts (mvCoded Build.generatedFacts pathSer) exec ruleSer pathSer r.repo sel (fun _ => none)).1 r.repo.targets)
+      (buildPhase pathSer Build.generatedFacts (mvCoded Build.generatedFacts pathSer) exec ruleSer r sel (fun _ => none) (fun _ => none)).1 r.repo.targets)
     (hwf : WFList sel [] r.repo.targets) (hdc : DataClosed r tsel (selKeys sel r.repo.targets)) :
     outcomes (plzTest exec ruleSer pathSer ruleSerRT outcome r sel tsel fl
         (hist exec ruleSer pathSer ruleSerRT outcome history TState.empty)).2.2 =
@@ -224,7 +244,7 @@ def tree (outName : Nat) : TRepo Nat Nat Nat Nat Nat Nat Nat :=
   { repo := { files := fun _ => 0, fname := id, outName := fun k => if k = 0 then outName else 100,
               targets := [dep outName, tst] },
     tests := fun k => if k = 1 then some ⟨5, false, true, [.inr 0]⟩ else none,
-    ownName := id, cfg := 0 }
+    ownName := id, cfg := 0, cacheOn := false }
 def all : Nat → Bool := fun _ => true
 abbrev T := TState Nat Nat Nat Nat Nat (RStamp Nat Nat Nat Nat)
 def run (r : TRepo Nat Nat Nat Nat Nat Nat Nat) (st : T) :=
@@ -253,7 +273,7 @@ def outcomeD (_ : List Nat) (files : List (Nat × Dir)) : Outcome :=
 def tstD : Target Nat Nat Nat := ⟨1, 9, [], []⟩
 def treeD (d : Dir) : TRepo Nat Nat Nat Nat Dir (List Nat) Nat :=
   { repo := { files := fun _ => d, fname := id, outName := id, targets := [tstD] },
-    tests := fun k => if k = 1 then some ⟨[5], false, true, [.inl 3]⟩ else none, ownName := id, cfg := 0 }
+    tests := fun k => if k = 1 then some ⟨[5], false, true, [.inl 3]⟩ else none, ownName := id, cfg := 0, cacheOn := false }
 def all : Nat → Bool := fun _ => true
 abbrev T := TState Nat Dir Nat Nat (List Nat) (RStamp (List Nat) Nat Nat (List Nat))
 def execD (_ : Nat) (_ : List (Nat × Dir)) : Dir := []
@@ -274,6 +294,30 @@ theorem C11_witness_dir_entry_renamed :
 open Witness2 in
 /-- Unframed data names collide in the runtime rule pre-image (C08's root cause): `[ab, c]` and `[a, bc]`. -/
 theorem C11_witness_unframed_data_names : ruleBad [[1, 2], [3]] = ruleBad [[1], [2, 3]] ∧ [[1, 2], [3]] ≠ [[1], [2, 3]] := by
+  decide
+
+namespace WitnessC
+/-! With the artifact cache: a test whose data file holds `c`; it passes iff the file holds 7. -/
+def tstC : Target Nat Nat Nat := ⟨1, 9, [], []⟩
+def outcomeC (_ : Nat) (files : List (Nat × Nat)) : Outcome := if files.any (·.2 == 7) then .pass else .error
+def treeC (c : Nat) : TRepo Nat Nat Nat Nat Nat Nat Nat :=
+  { repo := { files := fun _ => c, fname := id, outName := id, targets := [tstC] },
+    tests := fun k => if k = 1 then some ⟨5, false, true, [.inl 3]⟩ else none, ownName := id, cfg := 0, cacheOn := true }
+abbrev T := TState Nat Nat Nat Nat Nat (RStamp Nat Nat Nat Nat)
+def run (r : TRepo Nat Nat Nat Nat Nat Nat Nat) (st : T) :=
+  testAll TestCache.generatedFacts id id outcomeC Build.generatedFacts (mvCoded Build.generatedFacts id) (fun _ _ => 0) id r
+    (fun _ => true) (fun k => k == 1) {} st
+def s1 : T := (run (treeC 7) TState.empty).1
+def s2 : T := (run (treeC 8) s1).1
+end WitnessC
+
+open WitnessC in
+/-- The cache path is live and sound here: pass on A, error on B (results file removed, nothing cached), back to A:
+    the result is RESTORED from the artifact cache — a cached pass after a failing run, legitimately. -/
+theorem C11_cache_restores_earlier_pass :
+    (run (treeC 7) TState.empty).2.2 = [(1, some ⟨.pass, false, 1⟩)] ∧
+    (run (treeC 8) s1).2.2 = [(1, some ⟨.error, false, 1⟩)] ∧ s2.res 1 = none ∧
+    (run (treeC 7) s2).2.2 = [(1, some ⟨.pass, true, 0⟩)] := by
   decide
 
 /-! ### Non-vacuity -/
